@@ -21,10 +21,13 @@
       C16_pyyaml_overwrites_second (kf_pyyaml_extra_args_dropped / kf_pyyaml_second_arg_overwritten; repair in
       proposed_fixes/pyyaml-loader-argument.diff = variant PyyamlByParameter), C16_ssl_two_positional (kf_ssl_protocol_twice),
       C16_limit_readline_overwrites (unreachable end to end: the detector only reports `readline()`).
-    _partial with respect to the full statement: name resolution, imports/dependencies, the detector, the `options`
-    dict of jwt-decode-verify and everything outside call expressions are not modelled; they are covered by the
+    jwt-decode-verify's `options={...}` dict (Model/JwtOpts.v, shape-tied to jwt_decode_verify.py by the fragment
+    args_jwt_opts): C16_jwt_opts_frame, C16_jwt_spread_preserved, C16_jwt_opts_multiset, C16_jwt_options_arg_frame.
+    _partial with respect to the full statement: name resolution, imports/dependencies, the detector
+    and everything outside call expressions are not modelled; they are covered by the
     end-to-end correspondence of harness/c16.py only (tested, not proved). *)
 From CM Require Import Model.Args Spec.ArgsSpec Proofs.ArgsFacts Generated.Tables.
+From CM Require Import Model.JwtOpts Spec.JwtOptsSpec Proofs.JwtOptsFacts.
 From Coq Require Import Lia.
 From Coq Require Strings.String.
 Import String.StringSyntax.
@@ -302,3 +305,47 @@ Theorem C16_limit_readline_overwrites : forall lim o m f a args,
   args_of (on_result_found (HLimitReadline lim) o (ECall m f (a :: args))) = [mkArg None 0 0 0 lim].
 Proof. reflexivity. Qed.
 Print Assumptions C16_limit_readline_overwrites.
+
+(** * jwt-decode-verify: the options dict display *)
+(** _replace_opts_dict raises (file left untouched, listed as failed) exactly when the dict has a `**spread` entry;
+    otherwise the result is the documented edit entry by entry: same length and order, string keys mentioning
+    "verify" get the value True, every other entry is returned as it was. *)
+Theorem C16_jwt_opts_frame : forall els,
+  replace_opts_dict els = (if existsb is_spread els then None else Some (spec_opts els)) /\
+  forall r, replace_opts_dict els = Some r ->
+    length r = length els /\
+    (forall i d, nth_error els i = Some d -> nth_error r i = Some (spec_elem d)) /\
+    (forall i d, nth_error els i = Some d -> is_verify d = false -> nth_error r i = Some d).
+Proof. intros els. split; [apply replace_opts_dict_spec|apply replace_opts_dict_frame]. Qed.
+Print Assumptions C16_jwt_opts_frame.
+
+(** what the property demands of any rewrite of the dict: a `**spread` entry stays where it is *)
+Theorem C16_jwt_spread_preserved : forall els i l e,
+  nth_error els i = Some (DSpread l e) -> nth_error (spec_opts els) i = Some (DSpread l e).
+Proof. intros els i l e H. unfold spec_opts. rewrite nth_error_map, H. reflexivity. Qed.
+Print Assumptions C16_jwt_spread_preserved.
+
+Theorem C16_jwt_opts_multiset : forall els r t, replace_opts_dict els = Some r ->
+  cnt (toks_dict r) t + cnt (verify_values els) t = cnt (toks_dict els) t + n_verify els * cnt [TId (S_ "True")] t.
+Proof.
+  intros els r t H. rewrite replace_opts_dict_spec in H. destruct (existsb is_spread els); [discriminate|].
+  inversion H; subst. apply spec_opts_count.
+Qed.
+Print Assumptions C16_jwt_opts_multiset.
+
+(** replace_options_arg: every other argument of the call is returned as it was, in place; `options={...}` keeps its `=` tag *)
+Theorem C16_jwt_options_arg_frame : forall args r, replace_options_arg args = Some r ->
+  length r = length args /\
+  (forall i a, nth_error args i = Some (JOther a) -> nth_error r i = Some (JOther a)) /\
+  (forall i sp lay els, nth_error args i = Some (JOptions sp lay els) ->
+     existsb is_spread els = false /\ nth_error r i = Some (JOptions sp 0 (spec_opts els))).
+Proof. exact replace_options_arg_frame. Qed.
+Print Assumptions C16_jwt_options_arg_frame.
+
+Example C16_jwt_opts_example :
+  let leeway := DKey true (S_ """leeway""") 1 (EConst (S_ "10")) in
+  let vexp := DKey true (S_ """verify_exp""") 1 (EName (S_ "False")) in
+  replace_opts_dict [leeway; vexp; DKey false (S_ "verify_k") 0 (EName (S_ "False"))]
+    = Some [leeway; DKey true (S_ """verify_exp""") 0 (EName (S_ "True")); DKey false (S_ "verify_k") 0 (EName (S_ "False"))] /\
+  replace_opts_dict [DSpread 1 (EName (S_ "BASE")); vexp] = None.
+Proof. split; vm_compute; reflexivity. Qed.
